@@ -10,3 +10,4 @@ import KalignModel.Props.C11
 #print axioms Kalign.C11_bpm256_correct
 #print axioms Kalign.C11_add256
 #print axioms Kalign.C11_shl256
+#print axioms Kalign.C11_lev_sane
